@@ -36,7 +36,7 @@ func TestVerif_C06_Table(t *testing.T) {
 	n := 0
 	for _, m := range methods {
 		for _, kind := range []string{"ConfigMap", "Widget"} {
-			for _, diff := range []string{"equal", "owned", "foreign", "status", "sysmeta"} {
+			for _, diff := range []string{"equal", "owned", "foreign", "status", "sysmeta", "desired-status", "desired-empty-status"} {
 				if diff == "status" && kind == "ConfigMap" {
 					continue
 				}
@@ -68,6 +68,12 @@ func runC06(t *testing.T, cell c06Cell) {
 	target := kidCfg{Kind: cell.Kind, Name: "target-" + uid, Value: "v1"}
 	if cell.Diff == "sysmeta" {
 		target.MetaExtra = map[string]interface{}{"uid": "bogus-uid", "resourceVersion": "1", "creationTimestamp": "1999-01-01T00:00:00Z", "generation": int64(77), "selfLink": "/x"}
+	}
+	switch cell.Diff {
+	case "desired-status":
+		target.Status = map[string]interface{}{"phase": "Wanted"}
+	case "desired-empty-status":
+		target.Status = map[string]interface{}{}
 	}
 	sc.Kids = []kidCfg{target}
 	r := prepareScenario(sc)
